@@ -179,6 +179,30 @@ func checkVoteFunc(c *core.Ctx, sp voteSpec) {
 		}
 	}
 	if thr == nil {
+		// the comparison may still be there with an N that is not counted in the loop (len of the
+		// whole pool, a stored total …): then N is not "the current consensus validators"
+		for _, cd := range ir.Conds(fn) {
+			b, ok := cd.V.(*ssa.BinOp)
+			if !ok || b.Op != token.GEQ {
+				continue
+			}
+			if _, isConst := b.Y.(*ssa.Const); isConst {
+				continue
+			}
+			var leaf ssa.Value
+			if _, err := eng.ExtractExpr(b.Y, func(v ssa.Value) bool {
+				switch v.(type) {
+				case *ssa.BinOp, *ssa.Const, *ssa.Convert:
+					return false
+				}
+				leaf = v
+				return true
+			}); err == nil && leaf != nil {
+				c.Violate("C25.threshold", fn, "N of the threshold is counted per ConsensusStatus peer (sum++ in the pool loop)", c.P.Rel(b.Pos()),
+					"the threshold is computed over "+leaf.Name()+" ("+leaf.String()+"), which is not a count of the current consensus validators: peers that cannot vote inflate N and the message is released late or never")
+				return
+			}
+		}
 		c.Broken("C25.threshold", fn, "num >= T(sum)", c.P.Rel(fn.Pos()), "not found")
 		return
 	}
